@@ -987,3 +987,56 @@ SEQ_ENC_OPEN = Contract(
         ('constructed', 'result[1] is True and result[2] is True')],
     note='_isValueOf (contract) and the uses of encodeFun are call reductions / assumed models; per-member flags are symbolic')
 CONTRACTS = CONTRACTS + [SEQ_ENC_OPEN]
+
+
+# ---- "this Python value encodes like the DEFAULT" (asn1Spec path): a SET OF default compares as a multiset (C17) -------------------
+def _ead_params(n_members, setof):
+    import z3 as _z
+    from pyvc.core import SeqV as _SeqV, S as _S
+    chunk = lambda nm: _SeqV(_z.Const(nm, _S), 'bytes')
+    cs = [Obj('pyvalue', {'chunk': chunk('chunk.c%d' % i)}, name='c%d' % i) for i in range(n_members)]
+    ds = [Obj('Asn1Value', {'chunk': chunk('chunk.d%d' % i)}, name='d%d' % i) for i in range(n_members)]
+    whole_c, whole_d = chunk('chunk.component'), chunk('chunk.default')
+    elem_type = Obj('Asn1Type', {}, name='componentType')
+    default = Obj('SetOf' if setof else 'Sequence', {'componentType': elem_type, 'chunk': whole_d},
+                  {'__iter__': lambda ex, self_: Tup(list(ds), 'list')}, bases=(('SetOf',) if setof else ()), name='defaultValue')
+    component = Tup(list(cs), 'list')
+
+    def encode_fun(ex, value, asn1Spec=None, **options):
+        named = lambda o, nm: isinstance(o, Obj) and o.name == nm
+        if isinstance(value, Tup):
+            if not named(asn1Spec, 'defaultValue'):
+                raise Unsupported('the whole component encoded under something other than the default\'s type')
+            return whole_c
+        if named(value, 'defaultValue'):
+            return whole_d
+        if isinstance(value, Obj) and value.name in ('c0', 'c1'):
+            if not named(asn1Spec, 'componentType'):
+                ex.ghost['member_type_ok'] = False
+            return value.fields['chunk']
+        if isinstance(value, Obj) and value.name in ('d0', 'd1'):
+            return value.fields['chunk']
+        raise Unsupported('encodeFun(%r)' % (value,))
+    g = {'c%d' % i: cs[i].fields['chunk'] for i in range(n_members)}
+    g.update({'d%d' % i: ds[i].fields['chunk'] for i in range(n_members)})
+    g.update({'whole_c': whole_c, 'whole_d': whole_d, 'univ': {'SetOf': __import__('pyvc.core', fromlist=['ClassV']).ClassV('SetOf'),
+                                                              '__name__': 'univ'}})
+    return dict(component=PConst(component), defaultValue=PConst(default), encodeFun=PConst(FnV(encode_fun, 'encodeFun')),
+                options=PConst(__import__('pyvc.core', fromlist=['DictV']).DictV({}))), g
+
+
+_p2, _g2 = _ead_params(2, True)
+ENCODES_AS_DEFAULT_SETOF = Contract(
+    id='ber.encoder::SequenceEncoder._encodesAsDefault[set-of,2-members]', file=F, qual='SequenceEncoder._encodesAsDefault',
+    properties=['C17'], params=_p2, globals=_g2, ghost={'member_type_ok': True},
+    ensures=[('multiset-of-member-encodings', 'result == ((c0 == d0 and c1 == d1) or (c0 == d1 and c1 == d0))'),
+             ('members-encoded-under-the-element-type', 'member_type_ok')],
+    note='encodeFun is a model (one opaque octet string per member); byte strings are totally ordered (A-BUILTIN of sort)')
+ENCODES_AS_DEFAULT_SETOF.bounded = 'a SET OF default of two members against a Python list of two'
+_p1, _g1 = _ead_params(2, False)
+ENCODES_AS_DEFAULT_OTHER = Contract(
+    id='ber.encoder::SequenceEncoder._encodesAsDefault[not-a-set-of]', file=F, qual='SequenceEncoder._encodesAsDefault',
+    properties=['C17'], params=_p1, globals=_g1, ghost={'member_type_ok': True},
+    ensures=[('whole-encodings-compared', 'result == (whole_c == whole_d)')],
+    note='any other default: the component encoded under the default\'s type against the encoding of the default')
+CONTRACTS = CONTRACTS + [ENCODES_AS_DEFAULT_SETOF, ENCODES_AS_DEFAULT_OTHER]
